@@ -14,7 +14,7 @@ Oracle (independent of the Lean model, on the implementation's replies only):
 from streams.cluster import T0, hx
 
 HEADER = 3
-REQUIRED_SHAPES = ["previous_owner_newest", "previous_owner_gap", "stale_owner_newer_backup", "tie", "missing_copy", "expired_copy", "repair_fixed_owner", "repair_fixed_backup",
+REQUIRED_SHAPES = ["repair_owner_from_previous_owner_single_copy", "previous_owner_newest", "previous_owner_gap", "stale_owner_newer_backup", "tie", "missing_copy", "expired_copy", "repair_fixed_owner", "repair_fixed_backup",
                    "merge_older_ignored", "merge_newer_wins", "merge_redelivered", "read_no_repair"]
 
 
@@ -51,7 +51,7 @@ class Oracle:
     def getx_prev(self, key, owner, prevs, baks, cs, reply):
         """a read while previous owners are listed: the owner and every previous owner are asked; the backup owners
         only when that gave fewer versions than the read quorum.  Read-repair (if on) may rewrite the owner and the
-        backup owners: the copies are not compared afterwards in this case."""
+        backup owners: only the owner's own copy is compared afterwards in this case."""
         self.pending = None
         RQ = int(self.cfg.get("rq", 1))
         first = [cs.get(h) for h in [(owner, "P")] + prevs if self.live(cs.get(h))]
@@ -78,6 +78,13 @@ class Oracle:
         if got[2] < top and len(first) >= RQ:
             return "read returned the copy with timestamp %d although a live copy with timestamp %d exists on the owner or a previous owner (copies %s, owners %s)" % (
                 got[2], top, sorted(cs.items()), [p[0] for p in prevs] + [owner])
+        if self.cfg.get("rr", "0") == "1" and got[2] == top and any(c == got for c in lives):
+            # read-repair: the owner's OWN copy is brought up to the winner, wherever the winner was found - on a previous
+            # owner too, and with a single copy per key (ReplicaCount 1) as well
+            self.hit("repair_owner_from_previous_owner")
+            if self.cfg.get("r") == "1" and cs.get((owner, "P")) != got:
+                self.hit("repair_owner_from_previous_owner_single_copy")
+            self.pending = ("repaired", key, got, dict(cs), [(owner, "P")])
         return None
 
     def observe(self, op, reply):
@@ -217,6 +224,10 @@ class Gen:
         R = r.choice([1, 2, 3, 3])
         RQ = r.randint(1, R)
         rr = r.choice([0, 1, 1])
+        # every fifth episode: one copy per key, read-repair on, previous owners listed half of the time
+        forced = getattr(self, "ep", 0) % 5 == 2
+        if forced:
+            R, RQ, rr = 1, 1, 1
         n = 3
         parts = r.choice([3, 3, 7])     # PartitionCount < members makes consistent.Add panic (finding F34, C13)
         tsize = r.choice([256, 4096])
@@ -240,7 +251,7 @@ class Gen:
         for _ in range(nops or 40):
             k = r.choice(keys)
             owner, baks = routes[k]
-            if r.random() < 0.12:
+            if r.random() < (0.5 if forced else 0.12):
                 # previous owners listed for the partition (oldest first), copies planted on them - the newest one
                 # often on the OLDEST previous owner while the one after it holds none -, reads through every path
                 others = [m for m in range(n) if m != owner]
